@@ -367,6 +367,121 @@ func transmitted(sc *Scenario) (*decimal.Decimal, []byte, error) {
 	return x, ownBytes(b), err
 }
 
+// wireMsg is a composite message carrying Decimals in every position gob treats
+// differently.
+type wireMsg struct {
+	V decimal.Decimal
+	P *decimal.Decimal
+	S []*decimal.Decimal
+	N *decimal.Decimal
+	K int
+}
+
+func sameObs(a, b *decimal.Decimal) bool {
+	ao, bo := observe(a), observe(b)
+	return ao.String()+ao.Digits == bo.String()+bo.Digits
+}
+
+// presetWant is what decoding x into a Decimal that already has the given
+// precision and mode must give (the receiver keeps its precision and mode, the
+// value is rounded once); precision 0: all of x's attributes.
+func presetWant(x *decimal.Decimal, prec uint, mode decimal.RoundingMode) *decimal.Decimal {
+	if prec == 0 {
+		return x
+	}
+	return new(decimal.Decimal).SetMode(mode).SetPrec(prec).Set(x)
+}
+
+func compositeStream(x *decimal.Decimal, chunk int, cnt map[string]int) (msg string) {
+	defer func() {
+		if r := recover(); r != nil {
+			msg = fmt.Sprintf("composite gob stream round trip of %s panicked: %v", observe(x), r)
+		}
+	}()
+	if x.Prec() > maxWorkPrec {
+		return ""
+	}
+	y := new(decimal.Decimal).SetPrec(7).SetMode(decimal.ToZero)
+	y.Quo(new(decimal.Decimal).SetInt64(-22), new(decimal.Decimal).SetInt64(7)) // inexact, negative, short
+	ninf := new(decimal.Decimal).SetInf(true)
+	m1 := wireMsg{V: *new(decimal.Decimal).Copy(x), P: x, S: []*decimal.Decimal{x, y, ninf}, N: nil, K: 1}
+	m2 := wireMsg{V: *new(decimal.Decimal).Copy(y), P: y, S: []*decimal.Decimal{y}, N: x, K: 2}
+	var buf bytes.Buffer
+	enc := gob.NewEncoder(&buf)
+	if err := enc.Encode(&m1); err != nil {
+		return "gob.Encoder failed on a struct holding Decimals: " + err.Error()
+	}
+	if err := enc.Encode(&m2); err != nil {
+		return "gob.Encoder failed on a struct holding Decimals: " + err.Error()
+	}
+	data := append([]byte(nil), buf.Bytes()...)
+	// (a) fresh destinations
+	{
+		dec := gob.NewDecoder(&faultyReader{data: data, chunk: chunk})
+		var d1, d2 wireMsg
+		if err := dec.Decode(&d1); err != nil {
+			return fmt.Sprintf("decoding a struct holding %s failed: %v", observe(x), err)
+		}
+		if err := dec.Decode(&d2); err != nil {
+			return fmt.Sprintf("decoding the second struct on a stream failed: %v", err)
+		}
+		if !sameObs(&d1.V, x) || d1.P == nil || !sameObs(d1.P, x) || len(d1.S) != 3 || !sameObs(d1.S[0], x) || !sameObs(d1.S[1], y) || !sameObs(d1.S[2], ninf) || d1.N != nil || d1.K != 1 {
+			return fmt.Sprintf("struct round trip changed a Decimal: sent V=P=S[0]=%s, received V=%s P=%s S=%v N=%v", observe(x), observe(&d1.V), obsP(d1.P), obsS(d1.S), obsP(d1.N))
+		}
+		if !sameObs(&d2.V, y) || d2.P == nil || !sameObs(d2.P, y) || len(d2.S) != 1 || !sameObs(d2.S[0], y) || d2.N == nil || !sameObs(d2.N, x) || d2.K != 2 {
+			return fmt.Sprintf("second struct on the stream: sent V=P=S[0]=%s N=%s, received V=%s P=%s S=%v N=%s", observe(y), observe(x), observe(&d2.V), obsP(d2.P), obsS(d2.S), obsP(d2.N))
+		}
+		cnt["roundtrip_composite_fresh"]++
+	}
+	// (b) one destination reused for both messages: a Decimal that is already
+	// there keeps its precision and mode and receives the new value rounded once
+	{
+		dec := gob.NewDecoder(&faultyReader{data: data, chunk: chunk})
+		var d wireMsg
+		if err := dec.Decode(&d); err != nil {
+			return fmt.Sprintf("decoding a struct holding %s failed: %v", observe(x), err)
+		}
+		vp, vm := d.V.Prec(), d.V.Mode()
+		pp, pm := d.P.Prec(), d.P.Mode()
+		s0p, s0m := d.S[0].Prec(), d.S[0].Mode()
+		if err := dec.Decode(&d); err != nil {
+			return fmt.Sprintf("decoding the second struct into the same destination failed: %v", err)
+		}
+		if w := presetWant(y, vp, vm); !sameObs(&d.V, w) {
+			return fmt.Sprintf("reused destination, field by value: held %s, then received %s: got %s, want %s", observe(x), observe(y), observe(&d.V), observe(w))
+		}
+		if w := presetWant(y, pp, pm); d.P == nil || !sameObs(d.P, w) {
+			return fmt.Sprintf("reused destination, pointer field: held %s, then received %s: got %s, want %s", observe(x), observe(y), obsP(d.P), observe(w))
+		}
+		if len(d.S) != 1 {
+			return fmt.Sprintf("reused destination: slice has %d elements after a 1-element message", len(d.S))
+		}
+		if w := presetWant(y, s0p, s0m); !sameObs(d.S[0], w) {
+			return fmt.Sprintf("reused destination, slice element: held %s, then received %s: got %s, want %s", observe(x), observe(y), observe(d.S[0]), observe(w))
+		}
+		if d.N == nil || !sameObs(d.N, x) {
+			return fmt.Sprintf("reused destination, pointer that was nil: sent %s, got %s", observe(x), obsP(d.N))
+		}
+		cnt["roundtrip_composite_reused"]++
+	}
+	return ""
+}
+
+func obsP(d *decimal.Decimal) string {
+	if d == nil {
+		return "<nil>"
+	}
+	return observe(d).String()
+}
+
+func obsS(s []*decimal.Decimal) []string {
+	var o []string
+	for _, d := range s {
+		o = append(o, obsP(d))
+	}
+	return o
+}
+
 // ownBytes takes possession of a slice a library call returned: the harness
 // keeps a copy and overwrites the original, as a caller that reuses the buffer
 // would. A later call must not be affected (the slice is the caller's).
@@ -556,6 +671,12 @@ func runGob(sc *Scenario) *Outcome {
 			return viol("roundtrip-stream", fmt.Sprintf("gob stream round trip changed the Decimal:\n  sent     %s\n  received %s", xo, zo), rt)
 		}
 		out.Counters["roundtrip_gob_stream"]++
+	}
+	// the value inside composite messages on one gob stream: as a struct field by
+	// value and by pointer, in a slice, next to a nil pointer; two messages, read
+	// into fresh destinations and into one destination that is reused
+	if msg := compositeStream(x, bs.Chunk, out.Counters); msg != "" {
+		return viol("roundtrip-stream", msg, rt)
 	}
 
 	if bs.Entry == "roundtrip" {
